@@ -225,6 +225,15 @@ def random_calls(rnd, uni, n):
         else:
             hi = 1 if c == 'gear' or rnd.random() < 0.4 else 0.6                  # the whole legal friction range [0, 1] as well
             arg = {'isnum': True, 'v': rstr(float(f'{rnd.uniform(0, hi):.6g}'))}
+            worm = next((uni[x] for x in (m, s) if uni[x]['kind'] == 'WormGear'), None)
+            if c == 'worm' and worm is not None and rnd.random() < 0.4:
+                # a friction coefficient a little below / above the self-locking threshold cos(alpha) tan(beta) of the worm involved
+                # (from 1e-6 to 8 % away: far outside rounding, well inside what a slightly wrong formula would move)
+                beta = 2 * math.atan(float(Fraction(worm['th'])))
+                thr = math.cos(float(Fraction(worm['alpha']))) * math.tan(beta)
+                f = thr * (1 + rnd.choice([-1, 1]) * rnd.choice([1e-6, 1e-4, 1e-3, 0.01, 0.03, 0.08]))
+                if 0 <= f <= 1:
+                    arg = {'isnum': True, 'v': rstr(float(f'{f:.9g}'))}
         calls.append({'call': c, 'm': m, 's': s, 'arg': arg})
     return calls
 
@@ -300,6 +309,9 @@ def _campaign(tier, seed):
         [J('M', 'W'), W('W', 'Wh', '2/5'), J('Wh', 'S1'), G('S1', 'S2', '9/10'), J('S2', 'W2'), A()],   # last worm gear never mated (flag unset)
         [J('M', 'S1'), G('S1', 'S2', '1'), J('M', 'H1'), G('H1', 'H2', '1/2'), A(), J('M', 'S1'), A()],   # re-routed before and after assembling
         [J('M', 'S2'), J('S2', 'S3'), A()],                                             # duplicate names S2 / S3
+        [J('M', 'W'), W('W', 'Wh', '2/5'), J('Wh', 'S2'), J('S2', 'S3'), A()],          # ... downstream of a self-locking worm
+        [J('M', 'W2'), W('W2', 'Wh', '1/20'), J('Wh', 'S3'), J('S3', 'S2'), A()],        # ... downstream of a free worm
+        [J('M', 'S2'), J('S2', 'W'), W('W', 'Wh', '2/5'), J('Wh', 'S3'), A()],          # ... on both sides of a self-locking worm
         [J('M', 'F'), J('F', 'S1'), J('S1', 'F'), A('F'), A('S1')],                     # cycle not through the motor; non-motor starts
         # the same worm mated again: the self-locking flag must follow the LAST accepted declaration, whichever side drives
         [W('W', 'Wh', '2/5'), W('Wh', 'W', '1/20')], [W('Wh', 'W', '1/20'), W('W', 'Wh', '2/5')],
